@@ -173,7 +173,9 @@ def gen_cfg(seed: int, faulty: typing.Optional[bool] = None) -> dict:
             req['fail'] = 'overflow'
     # the inventory: the in-memory stub or the real posix inventory (descriptor modules loaded by forml's component
     # loader on the wrapper's thread pool)
-    inventory = 'posix' if web.random() < float(os.environ.get('C16_POSIX', 0.25)) else 'memory'
+    # (posix mode is OFF in the registered command - C16_POSIX=<share> switches it on: it no longer loses the baton and
+    # it found two genuine loader races, but 5 of 128 of its seeds have more than one (clean) execution: DESIGN.md 8.13)
+    inventory = 'posix' if web.random() < float(os.environ.get('C16_POSIX', 0.0)) else 'memory'
     # applications deployed while serving: the inventory grows under the wrapper's descriptor discovery
     if not burst and not storm and web.random() < 0.25:
         for app in apps:
@@ -822,7 +824,7 @@ def main(argv: list[str]) -> int:
         'stubbed_components': ['OS processes and threads (kernel tasks; spawn = ForkingPickler copy, fork = deep copy)',
                                'multiprocessing.Manager queues/events (pickle every item)',
                                'ThreadPoolExecutor/ProcessPoolExecutor (process flavour pickles call and result)',
-                               'asyncio event loop (virtual time)', 'clock', 'inventory (in-memory in three quarters of the runs; the real posix inventory and forml\'s component loader in the others)',
+                               'asyncio event loop (virtual time)', 'clock', 'inventory (in-memory; the real posix inventory and forml\'s component loader only when C16_POSIX is set)',
                                'uvicorn (the gateway\'s server= seam hands the ASGI application to simulated HTTP clients)'],
         'sweep_completed': exhausted, 'harness_errors': len(errors),
     }
